@@ -177,6 +177,26 @@ def run_shard(ctx):
                 text = pdbio.write(head + moved + [gen.ter_line(moved[-1])])
                 s.labels.append("interleaved-chains")
         ids = chain_ids(pdbio.parse(text))
+        extra = draw(st.integers(0, 7))
+        if extra == 0 and " " not in ids and "_" not in ids:
+            # a chain whose identifier is literally "_" (the spelling the program uses internally for a blank one)
+            old = ids[draw(st.integers(0, len(ids) - 1))]
+            ents = pdbio.parse(text)
+            for a in pdbio.atoms_of(ents):
+                if a.chain == old:
+                    a.chain = "_"
+            text = pdbio.write(ents)
+            ids = chain_ids(pdbio.parse(text))
+            s.labels.append("underscore-chain")
+        elif extra == 1:
+            # four-letter residue names of simulation packages: a character in column 21, which no record of the
+            # model uses
+            lines = text.splitlines(True)
+            for i, line in enumerate(lines):
+                if line[:6] in ("ATOM  ", "HETATM") and len(line) > 26 and (int(line[22:26]) % 3 == 0):
+                    lines[i] = line[:20] + "H" + line[21:]
+            text = "".join(lines)
+            s.labels.append("column-21")
         k = draw(st.integers(1, max(1, len(ids))))
         subset = draw(st.permutations(ids))[:k]
         if draw(st.integers(0, 9)) == 0:
@@ -188,7 +208,7 @@ def run_shard(ctx):
         case = {"pdb": text, "subset": subset}
         v, info = check_case(case)
         info["labels"] = info.get("labels", []) + [l for l in s.labels if l in ("two-models", "no-ter-break", "interleaved-chains",
-                                                                              "hetero-first", "blank-chain")]
+                                                                              "hetero-first", "blank-chain", "underscore-chain", "column-21")]
         info["sample"] = {"structure": s.summary(), "chains": chain_ids(pdbio.parse(text)), "selected": subset}
         ctx.account(case, v, info)
 
